@@ -3,7 +3,7 @@
     harness/props/c10.py). *)
 From Coq Require Import NArith Arith List Bool.
 Import ListNotations.
-From NV Require Import Machine.Dfa Machine.Sem Machine.Chunk Machine.FailPos.
+From NV Require Import Machine.Dfa Machine.Sem Machine.Chunk Machine.FailPos Machine.Bisim Machine.BBisim Machine.Drive.
 
 (** OK is returned only after the whole chunk has been consumed, for every machine carrying the
     certificate [no_stuck_ok] (computed per compiled machine) *)
@@ -42,3 +42,14 @@ Theorem c10_fail_at_first_offending_byte : forall D exec evalt d, fail_entry_ok 
   (f_res D r = RFail -> fails_at D exec evalt d bs q x (f_consumed D r)).
 Proof. exact fail_position. Qed.
 Print Assumptions c10_fail_at_first_offending_byte.
+
+(** re-invoking feed after a yield at the reported position loses, repeats and re-reports nothing: the caller's loop
+    (Machine/Drive.drive: feed the rest of the input; after a yield code feed what the reported cursor position has not
+    passed; stop at any other result) produces exactly the symbol-by-symbol run of the machine - each symbol dispatched
+    once per consumption, re-dispatched only behind a yield that did not advance - which is the run the theorems of
+    C01 / C05 / C08 / C16 speak about *)
+Theorem c10_reinvocation_is_the_run : forall D exec evalt d, dfa_wf d = true ->
+  (forall f bs q x tr K, f <= K -> drive D exec evalt d f bs q x = Some tr -> run D exec evalt (step_tree d) K bs q x = Some tr) /\
+  (forall K bs q x tr, run D exec evalt (step_tree d) K bs q x = Some tr -> exists f, drive D exec evalt d f bs q x = Some tr).
+Proof. intros D exec evalt d Hwf. split; [exact (drive_run D exec evalt d Hwf) | exact (run_drive D exec evalt d Hwf)]. Qed.
+Print Assumptions c10_reinvocation_is_the_run.
